@@ -63,6 +63,16 @@ PREFER["10"] = ("Nine earlier changes per property are listed above. Read the ST
                 "for each sentence / item note which earlier change (if any) targets it; then seed your change against the sentence or item that is "
                 "covered least, in a function and branch no earlier change touched. The result must stay silently wrong (no exception, plausible "
                 "values), must need something specific to show (say what in meta.json) and must not reuse a mechanism from the list above.")
+PREFER["11"] = ("Ten earlier changes per property are listed above. This time prefer one of the following kinds of change, in a function and branch no "
+                "earlier change touched: (dd) a bound, relaxation or search that becomes slightly LOOSER or slightly less complete but stays on the right "
+                "side of every obvious ordering (a dropped or weakened constraint, a truncated enumeration, an iteration cap, an early exit) so that only an "
+                "exactly known value on a NON-standard instance reveals it; (ee) integer / precision arithmetic: a product, factorial, power, root or "
+                "float-to-int conversion that is right for the small sizes and wrong from some size on (rounding down, narrow integer type, comparison of a "
+                "float with ==); (ff) Python-level semantics: zip() silently truncating lists of unequal length, truthiness of 0 / 0.0 / empty arrays used "
+                "as 'not given', negative indices, `is` versus `==`, integer versus true division, a mutable default argument, iteration order of a set or "
+                "dict; (gg) a data-dependent branch keyed on np.isclose / np.allclose / matrix_rank / a sort that flips for inputs with a large dynamic "
+                "range, with ties, or with a tiny but genuine component. The result must stay silently wrong (no exception, plausible values), must need "
+                "something specific to show (say what in meta.json) and must not reuse a mechanism from the list above.")
 TEMPLATE = open(os.path.join(os.path.dirname(os.path.abspath(__file__)), "seedprompt.template.txt")).read()
 os.makedirs(f"/tmp/seeded{ROUND}", exist_ok=True)
 for line in open("/verif/properties.jsonl"):
